@@ -25,6 +25,13 @@ Contracts (deal, on sidecar wrappers):
   the plain instance; and over the whole list ``s == t`` holds exactly when kind and settings (the JSON) coincide;
 * ``reload_bijection(bij)``: the reloaded bijection's ``map`` / ``inverse_map`` agree with the original's on all
   objects of size <= 5.
+
+Family: the searches of C07 / C12 plus the packs of ``LOCAL_PACKS``: ``dependent`` (``VerifiedThroughLonger``: a
+verification rule WITH a child, the documented way of marking a dependency -- the children of such a rule are not stored
+in its JSON and must come back through the strategy), ``quotient-stat`` (reverse product rules whose factors use local
+statistic names), ``rename`` (equivalence paths through renamed statistics), ``localnames`` / ``restmiddle``
+(``SplitPrefix`` products, ``ExpansionDropVanishing`` unions).  The rule-database flavour ``forest`` is not used with
+``dependent``: it raises RuntimeError / AssertionError on such universes (reported separately, not a C18 matter).
 """
 import copy
 import json
@@ -36,6 +43,7 @@ from collections import Counter
 import deal
 
 from comb_spec_searcher import AtomStrategy, CombinatorialSpecification, StrategyFactory, StrategyPack
+from harness.universe import class_from_repr
 from comb_spec_searcher.isomorphism import Bijection
 from comb_spec_searcher.strategies.rule import (
     AbstractRule,
@@ -69,6 +77,44 @@ def _note(check, what):
     _LAST["check"] = check
     _LAST["what"] = what
     return False
+
+
+def _local_pack(name, initial, inferral, expansion, ver):
+    return StrategyPack(initial_strats=initial, inferral_strats=inferral, expansion_strats=expansion, ver_strats=ver,
+                        name=name)
+
+
+LOCAL_PACKS = {
+    "dependent": lambda: _local_pack("dependent", [], [], [[ExpansionStrategy(), RemoveFrontOfPrefix()]],
+                                     [StatAtomStrategy(), VerifiedThroughLonger()]),
+    "quotient-stat": lambda: _local_pack("quotient-stat", [], [], [[PrependStatFactory()]],
+                                         [StatAtomStrategy(), LongPrefixVerified(k=2)]),
+    "rename": lambda: _local_pack("rename", [RemoveFrontOfPrefix()],
+                                  [RenameStats(), RemoveRedundantPatterns(), DropZeroStats()],
+                                  [[ExpansionStrategy()]], [StatAtomStrategy()]),
+    "localnames": lambda: _local_pack("localnames", [SplitPrefix(pieces=1, rest_at=0, local_names=True)], [],
+                                      [[ExpansionDropVanishing()]], [StatAtomStrategy()]),
+    "restmiddle": lambda: _local_pack("restmiddle", [SplitPrefix(pieces=2, rest_at=1), SplitPrefix(pieces=1, rest_at=0)],
+                                      [], [[ExpansionStrategy()]], [StatAtomStrategy()]),
+}
+NO_FOREST_PACKS = ("dependent",)
+C18_PACKS = dict(C12_PACKS)
+C18_PACKS.update(LOCAL_PACKS)
+LOCAL_STARTS = [("b", ["bb"], "ab", ()), ("a", ["ab"], "ab", ()), ("b", ["ba"], "ab", ("nb",)),
+                ("aab", ["bb"], "ab", ("na",)), ("a", ["aa", "ab"], "ab", ("na",))]
+
+
+def local_jobs(tier, seed):
+    starts = list(family_starts(tier, seed))
+    starts += [c for c in (Av(p, patts, al, False, st) for p, patts, al, st in LOCAL_STARTS) if c not in set(starts)]
+    return [{"start": repr(start), "pack": pack, "db": db} for start in starts for pack in LOCAL_PACKS
+            for db in RULEDBS if not (db == "forest" and pack in NO_FOREST_PACKS)]
+
+
+def build_spec(job):  # noqa: F811  (the C07 function, over the enlarged table of packs)
+    start = class_from_repr(job["start"])
+    spec = find_spec(start, C18_PACKS[job["pack"]](), RULEDBS[job["db"]](), max_expansion_time=20)
+    return start, spec
 
 
 def via_json(obj):
@@ -221,7 +267,7 @@ def equal_both_ways(a, b, how):
 
 def strategy_list():
     strats = []
-    for make in C12_PACKS.values():
+    for make in C18_PACKS.values():
         strats.extend(make())
     strats.extend(ALL_STRATEGIES())
     strats += [
@@ -232,6 +278,10 @@ def strategy_list():
         ExpansionStrategy(workable=False), RemoveFrontOfPrefix(ignore_parent=False), RemoveFrontOfPrefix(workable=False),
         SwapSymmetry(ignore_parent=True), AddStat(stat="nb"), AddStat(stat="na", only_root=False),
         CoreFactory(), LookAheadRuleFactory(), LookBackRuleFactory(),
+        SplitPrefix(), SplitPrefix(pieces=2, rest_at=5, local_names=True), SplitPrefix(ignore_parent=False, rest_at=1),
+        RenameStats(), OneWaySwap(), OneWaySwap(workable=True), StepRemoveRedundantPatterns(), ExpansionDropVanishing(),
+        ExpansionDropVanishing(merge=True), VerifiedThroughLonger(), VerifiedThroughLonger(ignore_parent=True),
+        PrependStatFactory(), PrependRuleFactory(),
     ]
     out, seen = [], set()
     for s in strats:
@@ -302,7 +352,7 @@ def check_strategies(out):
 
 
 def check_packs(out):
-    for name, make in C12_PACKS.items():
+    for name, make in C18_PACKS.items():
         for variant in ("plain", "iterative"):
             pack = make()
             if variant == "iterative":
@@ -316,7 +366,7 @@ def check_packs(out):
             except Exception as e:  # pylint: disable=broad-except
                 _note("pack-exception", f"{name}: {type(e).__name__}: {e}")
                 out["viols"].append(_viol({"pack": name, "variant": variant}))
-    out["packs"] = 2 * len(C12_PACKS)
+    out["packs"] = 2 * len(C18_PACKS)
 
 
 # --------------------------------------------------------------------------------------------------------------
@@ -483,7 +533,7 @@ def run_job(job, nmax, omax, equations):
 
 
 # packs whose verification strategy computes its generating function by searching and solving (sympy.solve)
-SLOW_EQUATION_PACKS = {name for name, make in C12_PACKS.items()
+SLOW_EQUATION_PACKS = {name for name, make in C18_PACKS.items()
                        if any(isinstance(s, LongPrefixVerified) for s in make().ver_strats)}
 
 
@@ -524,6 +574,7 @@ def run(tier, seed):
     for start in family_starts(tier, seed)[:: 3 if tier == "quick" else 1]:
         for pack in ("split-120", "split-201"):
             jobs.append({"start": repr(start), "pack": pack, "db": "base"})
+    jobs += local_jobs(tier, seed)
     ctx = multiprocessing.get_context("fork")
     with ctx.Pool(NPROC) as pool:
         keys = pool.map(_key_worker, jobs, chunksize=8)
@@ -557,7 +608,9 @@ def run(tier, seed):
     nstrat = next((r["strategies"] for r in results if "strategies" in r), 0)
     npacks = next((r["packs"] for r in results if "packs" in r), 0)
     return {
-        "bound": (f"{len(jobs)} searches -> {len(chosen)} distinct specifications (sha1 of JSON), each reloaded and "
+        "bound": (f"{len(jobs)} searches (C07's family, permuted products, and the local packs {sorted(LOCAL_PACKS)} on "
+                  f"the same start classes + {len(LOCAL_STARTS)}) -> {len(chosen)} distinct specifications (sha1 of "
+                  f"JSON), each reloaded and "
                   f"compared: equality both ways, rule forms class by class, counts n <= {nmax} (all parameter "
                   f"vectors), objects n <= {omax}, equations; {sum(forms.values())} distinct rule objects reloaded "
                   f"(forms: {dict(forms)}); {empty} empty-class rules present ({lazy} added lazily after "
